@@ -38,6 +38,8 @@ def run(model: RepoModel, rep, tier: str):
         bad = [r for r in roots if r in ("input", "cwd", "settings", "relative-name", "tempdir") or r.startswith("const:'/")]
         unk = [r for r in roots if r.startswith("unknown:")]
         rel_const = [r for r in roots if r.startswith("const:") and not r.startswith("const:'/")]
+        # a configuration constant holding a relative name (config:NAME=value) is a relative path too when nothing else anchors it
+        rel_const += [r for r in roots if r.startswith("config:") and "=" in r and not r.split("=", 1)[1].startswith("/")]
         return bad, unk, rel_const
 
     # ------------------------------------------------------------------ R1 / R3
@@ -262,6 +264,9 @@ def _t(old, new):
 
 
 MUTANTS = [
+    ("taint-report-under-default-dir-name", "taint/taint_analysis.py",
+     lambda src: __import__("sa.mutate", fromlist=["x"]).text_replace(src, "        output_dir = os.path.join(self.options.workspace, config.TAINT_OUTPUT_DIR)", "        output_dir = os.path.join(self.options.default_workspace_dir, config.TAINT_OUTPUT_DIR)"),
+     "print_and_write_flows"),
     ("prune-compares-abspath", PREP, lambda src: src.replace("os.path.realpath(self.options.workspace)", "os.path.abspath(self.options.workspace)", 1)
         .replace("os.path.realpath(os.path.join(root, d))", "os.path.abspath(os.path.join(root, d))", 1), "walk never descends"),
     ("preprocess-original-files", PREP, _t("                    self.rescan_c_like_files(src_dir_path)",
